@@ -127,7 +127,15 @@ func runEndpoint(t *testing.T, run *obs.Run, ep endpoint, nMut int) {
 		select {
 		case <-done:
 		case <-time.After(hangBound):
-			hung = true
+			// not an oracle of timing: on a loaded machine a finite case may be slow, so the
+			// verdict "endless" is only given when the call is still running after a further,
+			// much longer wait
+			run.Stat("cases_over_hang_bound_given_more_time", 1)
+			select {
+			case <-done:
+			case <-time.After(hangGrace):
+				hung = true
+			}
 		}
 		if d := time.Since(tc); d > 1500*time.Millisecond {
 			run.Stat("slow_cases_over_1500ms", 1)
@@ -143,7 +151,7 @@ func runEndpoint(t *testing.T, run *obs.Run, ep endpoint, nMut int) {
 			hangs++
 			run.Stat("hangs", 1)
 			c.Viol("hang-"+ep.name,
-				fmt.Sprintf("%s did not return within %s on peer input (%s): endless loop", ep.name, hangBound, ic.class),
+				fmt.Sprintf("%s did not return within %s on peer input (%s): endless loop", ep.name, hangBound+hangGrace, ic.class),
 				map[string]interface{}{"endpoint": ep.name, "class": ic.class, "input_hex": hexCap(ic.b), "stacks": repoStacks()})
 		case pi != nil && pi.Harness:
 			t.Fatalf("harness fault in %s case %d (%s): %s at %s\n%v", ep.name, i, ic.class, pi.Value, pi.Site, pi.Stack)
@@ -186,6 +194,9 @@ func runEndpoint(t *testing.T, run *obs.Run, ep endpoint, nMut int) {
 // hangBound is the liveness bound of one case (not an oracle of timing: every finite
 // case of this bench takes milliseconds to a few seconds).
 const hangBound = 15 * time.Second
+
+// hangGrace is the additional time a case gets before it is called endless.
+const hangGrace = 90 * time.Second
 
 // repoStacks lists the running goroutines that are inside repository code (for the
 // witness of a hang).
